@@ -24,14 +24,23 @@ type poolCase struct {
 func objKeysLit(rng *rand.Rand, n int) (*ObjectLit, map[string]any) {
 	o := &ObjectLit{}
 	doc := map[string]any{}
+	numericLooking := []string{"1", "1.0", "01", "10", "9", "1a", "2", "002", "2.0", "-1", "1e1", "a1", " 1", "0x1"}
+	style := rng.IntN(3)
+	if style == 0 && n > 9 {
+		n = 9 // only 14 distinct numeric-looking keys exist
+	}
 	for len(o.Keys) < n {
 		k := fmt.Sprintf("%c%c%d", 'a'+rng.IntN(26), 'a'+rng.IntN(26), rng.IntN(10))
+		if style == 0 || (style == 1 && rng.IntN(2) == 0) {
+			// keys that look like numbers: equal values in different spellings, numeric vs. string order disagreeing
+			k = numericLooking[rng.IntN(len(numericLooking))]
+		}
 		if _, dup := doc[k]; dup {
 			continue
 		}
 		v := rng.IntN(100)
 		o.Keys = append(o.Keys, k)
-		o.Quoted = append(o.Quoted, false)
+		o.Quoted = append(o.Quoted, true)
 		if rng.IntN(5) == 0 {
 			inner, idoc := map[string]any{}, &ObjectLit{}
 			for j := 0; j < 3; j++ {
@@ -98,6 +107,9 @@ var c10Disturbers = []string{
 	"BEGIN { print 'abc'.upper().lower().split('b'), 2.5.round(), {a: 1}.pluck('a').length() }",
 	"BEGIN { print 1 +",
 	"BEGIN { print [1].push(2).length(), 'a'.length() }",
+	"BEGIN { match (null) { t => { t += 5; t = 'poisoned' } } match (true) { s => { s = 'no' } } match (false) { f => { f++ } } x = 0; match (x) { z => { z = 9 } } print 'd' }",
+	"BEGIN { x = true; x++; y = null; y.k = 1; n = 5; n++; print x, n } { $ = null } END { print null, true, false, 0, 1, '' }",
+	"function m(v) { v.seen = 1; return v } BEGIN { print m({}), m([]) , 1 is number, null is null }",
 }
 
 func c10Pool(rng *rand.Rand) poolCase {
@@ -278,7 +290,7 @@ func init() {
 			if tier == "thorough" {
 				return 60000
 			}
-			return 2000
+			return 4000
 		},
 		Run:           c10Run,
 		MinConclusive: func(tier string) int { return 1500 },
